@@ -84,6 +84,16 @@ pub struct FindScenario {
     /// the process environment of the run (see `crate::ambient`)
     #[serde(default)]
     pub ambient: crate::ambient::Ambient,
+    /// children are real processes: every `CMD`/`CMD2` on the command line becomes
+    /// `simchild LOG SCRIPT` (it logs what it received and where it ran and ends as `outcomes`
+    /// says); after the run the log is checked against what the seam recorded and the spawn
+    /// events are rewritten to what really happened
+    #[serde(default)]
+    pub real_children: bool,
+    /// find runs in a working directory whose absolute path is about this many bytes long
+    /// (beyond PATH_MAX is possible: the property's check enters it step by step)
+    #[serde(default)]
+    pub long_cwd: Option<usize>,
     /// find's working directory is this directory of the tree instead of the directory the
     /// tree stands in (the command line's paths are then relative to it)
     #[serde(default)]
@@ -112,6 +122,8 @@ impl FindScenario {
             files0_empty_after: None,
             files0_no_final_nul: false,
             ambient: Default::default(),
+            real_children: false,
+            long_cwd: None,
             cwd_sub: None,
         }
     }
@@ -238,6 +250,8 @@ pub fn ns_to_systime(ns: i64) -> SystemTime {
 }
 
 pub struct FindObs {
+    /// real children: the first thing their log contradicts the seam's record in
+    pub real_mismatch: Option<String>,
     /// what `account_find` reports about the process environment of the run
     pub ambient: crate::ambient::Ambient,
     pub status: RunStatus,
@@ -350,6 +364,7 @@ pub fn run_find_in(sc: &FindScenario, ctx: &mut Ctx, sub: &str) -> FindObs {
         let mut log = Log::default();
         log.budget_exhausted = false;
         return FindObs {
+            real_mismatch: None,
             ambient: Default::default(),
             status: RunStatus::Panic(format!("HARNESS: cannot build tree: {e}")),
             log,
@@ -402,10 +417,32 @@ pub fn run_find_prebuilt(sc: &FindScenario, ctx: &mut Ctx, root: PathBuf) -> Fin
     };
     let ms2 = mstate.clone();
     let log2 = log.clone();
+    // real children: the placeholder commands become simchild with its log and script
+    let real_files = if sc.real_children {
+        // (the children inherit descriptor 0 of this process: an end of file, always)
+        crate::sys::stdin_devnull();
+        let dir = ctx.scratch.join("fx");
+        crate::sys::wipe(&dir);
+        let _ = fs::create_dir_all(&dir);
+        let lp = dir.join("child.log");
+        let sp = dir.join("child.script");
+        let mut script = String::new();
+        for o in &sc.outcomes {
+            match o {
+                Outcome::Exit(c) => script.push_str(&format!("exit {c}\n")),
+                Outcome::Signal(s, _) => script.push_str(&format!("signal {s}\n")),
+                _ => script.push_str("exit 0\n"),
+            }
+        }
+        let _ = fs::write(&sp, script);
+        Some((lp, sp))
+    } else {
+        None
+    };
     let world = SimWorld {
         log: log.clone(),
-        outcomes: sc.outcomes.clone(),
-        default_outcome: Outcome::Exit(0),
+        outcomes: if sc.real_children { vec![] } else { sc.outcomes.clone() },
+        default_outcome: if sc.real_children { Outcome::Real } else { Outcome::Exit(0) },
         spawn_count: 0,
         spawn_budget: FIND_SPAWN_BUDGET,
         input: None,
@@ -414,7 +451,16 @@ pub fn run_find_prebuilt(sc: &FindScenario, ctx: &mut Ctx, root: PathBuf) -> Fin
         })),
     };
     let mut argv = vec!["find".to_string()];
-    argv.extend(sc.full_argv());
+    for a in sc.full_argv() {
+        match &real_files {
+            Some((lp, sp)) if a == "CMD" || a == "CMD2" => {
+                argv.push(ctx.simchild.to_string_lossy().into_owned());
+                argv.push(lp.to_string_lossy().into_owned());
+                argv.push(sp.to_string_lossy().into_owned());
+            }
+            _ => argv.push(a),
+        }
+    }
     let mut ambient = sc.ambient.clone();
     if sc.env.is_some() || sc.rlimit_stack.is_some() {
         // the size of the environment is part of these scenarios
@@ -426,6 +472,13 @@ pub fn run_find_prebuilt(sc: &FindScenario, ctx: &mut Ctx, root: PathBuf) -> Fin
         findutils::find::find_main(&refs, &deps)
     });
     drop(guard);
+    // real children: compare their log with the seam's record while still in find's working
+    // directory (the directories are looked up the way the children reached them)
+    let mut real_mismatch = None;
+    if let Some((lp, _)) = &real_files {
+        let recs = crate::xargs::parse_child_records(&fs::read(lp).unwrap_or_default());
+        real_mismatch = reconcile_real_children(&mut log.borrow_mut(), &recs, &ctx.simchild);
+    }
     let _ = std::env::set_current_dir(&ctx.scratch);
     drop(mstate);
     let log = match Rc::try_unwrap(log) {
@@ -433,11 +486,123 @@ pub fn run_find_prebuilt(sc: &FindScenario, ctx: &mut Ctx, root: PathBuf) -> Fin
         Err(rc) => std::mem::take(&mut *rc.borrow_mut()),
     };
     FindObs {
+        real_mismatch,
         ambient,
         status,
         log,
         stderr,
         root,
+    }
+}
+
+/// Real children: rewrite every spawn event to what really happened (`simchild LOG SCRIPT`
+/// back to the placeholder, the outcome from the real wait status) and compare the children's
+/// own log with the seam's record: same arguments, and a working directory that is the
+/// directory the request named (by device and inode: it may lie beyond PATH_MAX).
+fn reconcile_real_children(log: &mut Log, recs: &[crate::xargs::ChildRec], simchild: &Path) -> Option<String> {
+    use std::os::unix::ffi::OsStrExt;
+    use std::os::unix::fs::MetadataExt;
+    let mut mismatch: Option<String> = None;
+    let mut k = 0usize; // children that really started
+    for ev in log.events.iter_mut() {
+        let Event::Spawn { argv, cwd, outcome, real_status } = ev else { continue };
+        let Some(st) = *real_status else { continue };
+        let is_simchild = argv.first().map(|a| a.0 == simchild.as_os_str().as_bytes()).unwrap_or(false) && argv.len() >= 3;
+        if is_simchild {
+            argv.drain(0..3);
+            argv.insert(0, B(b"CMD".to_vec()));
+        }
+        if st < 0 {
+            *outcome = Outcome::SpawnErr(-st);
+            continue;
+        }
+        *outcome = if libc::WIFEXITED(st) { Outcome::Exit(libc::WEXITSTATUS(st)) } else { Outcome::Signal(libc::WTERMSIG(st), false) };
+        if !is_simchild {
+            continue;
+        }
+        let Some(rec) = recs.get(k) else {
+            mismatch.get_or_insert(format!("child #{k} started but left no record in its log"));
+            k += 1;
+            continue;
+        };
+        k += 1;
+        let want: Vec<&[u8]> = argv.iter().skip(1).map(|a| a.0.as_slice()).collect();
+        let got: Vec<&[u8]> = rec.args.iter().map(|a| a.as_slice()).collect();
+        if want != got {
+            mismatch.get_or_insert(format!("child #{} received {} arguments, the seam recorded {}", k - 1, got.len(), want.len()));
+        }
+        let dir = match cwd {
+            Some(c) => PathBuf::from(std::ffi::OsStr::from_bytes(&c.0)),
+            None => PathBuf::from("."),
+        };
+        match (fs::metadata(&dir), rec.dir) {
+            (Ok(m), Some((d, i))) => {
+                if (m.dev(), m.ino()) != (d, i) {
+                    mismatch.get_or_insert(format!("child #{} ran in another directory than [{}]", k - 1, dir.display()));
+                }
+            }
+            (Err(e), _) => {
+                mismatch.get_or_insert(format!("the directory [{}] requested for child #{} cannot be looked up: {e}", dir.display(), k - 1));
+            }
+            (_, None) => {
+                mismatch.get_or_insert(format!("child #{} could not identify its working directory", k - 1));
+            }
+        }
+    }
+    if mismatch.is_none() && recs.len() != k {
+        mismatch = Some(format!("{} children left a record, {k} were started through the seam", recs.len()));
+    }
+    mismatch
+}
+
+/// A working directory whose absolute path is about `len` bytes long, below `<scratch>/L`,
+/// entered step by step (no single call sees a path beyond PATH_MAX). The process is inside
+/// it when this returns.
+pub fn enter_long_cwd(ctx: &Ctx, len: usize) -> std::io::Result<()> {
+    let base = ctx.scratch.join("L");
+    wipe_deep(&ctx.scratch, "L");
+    fs::create_dir_all(&base)?;
+    std::env::set_current_dir(&base)?;
+    let mut have = base.as_os_str().len();
+    while have < len {
+        let k = (len - have).saturating_sub(1).clamp(1, 250);
+        let name = "w".repeat(k);
+        fs::create_dir(&name)?;
+        std::env::set_current_dir(&name)?;
+        have += k + 1;
+    }
+    Ok(())
+}
+
+/// Back out of the long working directory and remove it.
+pub fn leave_long_cwd(ctx: &Ctx) {
+    let _ = std::env::set_current_dir(&ctx.scratch);
+    wipe_deep(&ctx.scratch, "L");
+}
+
+/// Remove `parent/name` recursively without ever naming a path longer than one component:
+/// descends with chdir. Leaves the process in `parent`.
+pub fn wipe_deep(parent: &Path, name: &str) {
+    fn rec(name: &std::ffi::OsStr) {
+        let Ok(md) = fs::symlink_metadata(name) else { return };
+        if md.is_dir() {
+            let _ = fs::set_permissions(name, fs::Permissions::from_mode(0o700));
+            if std::env::set_current_dir(name).is_ok() {
+                if let Ok(rd) = fs::read_dir(".") {
+                    let names: Vec<std::ffi::OsString> = rd.flatten().map(|e| e.file_name()).collect();
+                    for n in names {
+                        rec(&n);
+                    }
+                }
+                let _ = std::env::set_current_dir("..");
+            }
+            let _ = fs::remove_dir(name);
+        } else {
+            let _ = fs::remove_file(name);
+        }
+    }
+    if std::env::set_current_dir(parent).is_ok() {
+        rec(std::ffi::OsStr::new(name));
     }
 }
 
